@@ -41,6 +41,9 @@ def keyed_arrays(net):
 def key_palette(rng, width):
 	top = (1 << (8 * width)) - 1
 	values = [0, 1, 2, 255, 256, 257, top, top - 1, 1 << (8 * width - 1), (1 << (8 * width - 8)), (1 << (8 * width - 8)) + 1]
+	if 8 == width:
+		# values whose Python hashes coincide (2^61 - 1 apart): equality of keys must not be decided by hash
+		values += [5 + (1 << 61) - 1, 3 + 2 * ((1 << 61) - 1)]
 	values += [rng.randrange(top + 1) for _ in range(4)]
 	return [value for value in values if 0 <= value <= top]
 
@@ -104,7 +107,10 @@ class KeyedArrayCheck:
 				typedef = self.net.types[kind['elem']]
 				if 'int' == typedef['k']:
 					top = (1 << (8 * typedef['w'])) - 1
-					items.append(str([0, 1, top, 256, 1 << (8 * typedef['w'] - 8)][part]))
+					atoms = [0, 1, top, 256, 1 << (8 * typedef['w'] - 8)]
+					if 8 == typedef['w'] and choice % 2:
+						atoms = [5, 5 + (1 << 61) - 1, 3, 3 + (1 << 61) - 1, 1]  # hash-colliding integers inside list keys
+					items.append(str(atoms[part]))
 				else:
 					raise ValueError(f'list key with elements of kind {typedef["k"]}')
 			slot[1] = items
